@@ -49,10 +49,39 @@ def case_strategy(draw, tier):
     frame = draw(F.frame_strategy(kinds=C02_FRAME_KINDS, max_cols=3,
                                   allow_big=False))
     cons = draw(GC.constraint_set(frame))
+    epsilon = draw(st.sampled_from([None, 0, 0.01, 0.5]))
+    reals = [c for c in frame['cols'] if c['kind'] == 'float64'
+             and any(v is not None for v in c['cells'])]
+    if reals and draw(st.integers(0, 7)) == 0:
+        # the band between an integer-valued bound and its fuzzed value:
+        # the column's extreme value is put strictly inside it (or just
+        # outside), so only the exact tolerance bound*(1 +- epsilon) decides
+        c = draw(st.sampled_from(reals))
+        epsilon = draw(st.sampled_from([0.01, 0.5]))
+        b = draw(st.sampled_from([3, 5, 7, 15, 101, 250, -3, -15, -7]))
+        which = draw(st.sampled_from(['max', 'min']))
+        inside = draw(st.sampled_from([True, True, False]))
+        width = abs(b) * epsilon
+        edge = (b + width) if which == 'max' else (b - width)
+        target = edge - (width / 4 if which == 'max' else -width / 4)
+        if not inside:
+            target = edge + (width / 4 if which == 'max' else -width / 4)
+        cells = []
+        for v in c['cells']:
+            if v is None or isinstance(v, str):
+                cells.append(None)
+            else:
+                cells.append(float(b))
+        if all(v is None for v in cells):
+            cells[0] = float(b)
+        cells[[i for (i, v) in enumerate(cells) if v is not None][-1]] = (
+            target)
+        c['cells'] = cells
+        cons['fields'][c['name']] = {'type': 'real', which: b}
     return {
         'frame': frame,
         'constraints': cons,
-        'epsilon': draw(st.sampled_from([None, 0, 0.01, 0.5])),
+        'epsilon': epsilon,
         'type_checking': draw(st.sampled_from(['strict', 'sloppy'])),
         'report': draw(st.sampled_from(['all', 'fields'])),
     }
